@@ -20,6 +20,8 @@ pub struct NsState {
     pub close_epoch: u64,
     /// the next watch request is answered with a 410 Gone error event
     pub gone_pending: bool,
+    /// the next list request that carries a continue token is answered with 410 (token expired)
+    pub fail_next_continue: bool,
     pub list_requests: u64,
     pub watch_requests: u64,
     pub notify: Arc<tokio::sync::Notify>,
@@ -124,14 +126,29 @@ async fn handle(mut sock: tokio::net::TcpStream, st: Arc<Mutex<State>>) {
         };
         let is_watch = query.split('&').any(|p| p == "watch=true" || p == "watch=1");
         if !is_watch {
-            let body = {
+            let param = |name: &str| query.split('&').find_map(|p| p.strip_prefix(&format!("{name}="))).map(str::to_string);
+            let limit: usize = param("limit").and_then(|v| v.parse().ok()).unwrap_or(usize::MAX);
+            let offset: usize = param("continue").and_then(|v| v.strip_prefix("off-").and_then(|o| o.parse().ok())).unwrap_or(0);
+            let (status, body) = {
                 let mut s = st.lock().unwrap();
                 let n = s.namespaces.entry(ns.clone()).or_default();
                 n.list_requests += 1;
-                let items: Vec<Value> = n.objects.values().cloned().collect();
-                serde_json::to_vec(&json!({"apiVersion": "agones.dev/v1", "kind": "GameServerList", "metadata": {"resourceVersion": n.resource_version.to_string()}, "items": items})).unwrap()
+                if offset > 0 && n.fail_next_continue {
+                    n.fail_next_continue = false;
+                    (410, serde_json::to_vec(&json!({"kind": "Status", "apiVersion": "v1", "metadata": {}, "status": "Failure", "message": "The provided continue parameter is too old", "reason": "Expired", "code": 410})).unwrap())
+                } else {
+                    let all: Vec<Value> = n.objects.values().cloned().collect();
+                    let end = offset.saturating_add(limit).min(all.len());
+                    let items: Vec<Value> = all[offset.min(all.len())..end].to_vec();
+                    let mut meta = json!({"resourceVersion": n.resource_version.to_string()});
+                    if end < all.len() {
+                        meta["continue"] = json!(format!("off-{end}"));
+                        meta["remainingItemCount"] = json!(all.len() - end);
+                    }
+                    (200, serde_json::to_vec(&json!({"apiVersion": "agones.dev/v1", "kind": "GameServerList", "metadata": meta, "items": items})).unwrap())
+                }
             };
-            let out = format!("HTTP/1.1 200 OK\r\ncontent-type: application/json\r\ncontent-length: {}\r\n\r\n", body.len());
+            let out = format!("HTTP/1.1 {status} {}\r\ncontent-type: application/json\r\ncontent-length: {}\r\n\r\n", if status == 200 { "OK" } else { "Gone" }, body.len());
             if sock.write_all(out.as_bytes()).await.is_err() || sock.write_all(&body).await.is_err() {
                 return;
             }
